@@ -546,6 +546,82 @@ def migrate (c : Cfg) (s : State) (frm to : Addr) (sigOk : Bool) : Except MErr S
     if bankBlocked c s frm then .error .exec else
     .ok (setRecord c (stakingExecute c (bankExecute c s frm to) frm to) frm to)
 
+/-! ### the message server as a program
+
+`Keeper.MigrateAccount` is a list of statements (`Gen.C14.handlerOrder`, regenerated) two of which loop over the handlers
+registered with the keeper (`Gen.C14.migrateHandlers`, the arguments of `SetMigrateI` in the app wiring, regenerated):
+`migrateProg` INTERPRETS the two lists.  The driver runs this interpretation; `migrate` above is the hand-written reading
+the theorems are about, and `Props.C14.handler_program_as_modelled` proves the two equal for the lists as they are in
+the source now. -/
+
+/-- the handler type a registered constructor returns -/
+def handlerType (ctor : String) : String := (Gen.C14.handlerTypes.lookup ctor).getD ""
+/-- the method's body is a bare `return nil` -/
+def bodyNil (tm : String) : Bool := Gen.C14.handlerBodies.lookup tm == some "nil"
+
+/-- one rejecting check of `DistrStakingMigrate.Validate` -/
+def stakingCheck (s : State) (frm to : Addr) (chk : String) : Option MErr :=
+  if chk == "validator-from" then (if s.vals.contains frm then some .validator else none)
+  else if chk == "validator-to" then (if s.vals.contains to then some .validator else none)
+  else if chk == "delegations-to" then (if s.dels.any (fun p => p.1.1 == to) then some .toStaking else none)
+  else if chk == "unbonding-to" then (if s.ubds.any (fun p => p.1.1 == to) then some .toStaking else none)
+  else if chk == "redelegations-to" then (if s.reds.any (fun p => p.1.1 == to) then some .toStaking else none)
+  else none
+
+/-- `DistrStakingMigrate.Validate` as the regenerated list of its checks, first refusal wins -/
+def stakingValidateP (checks : List String) (s : State) (frm to : Addr) : Option MErr :=
+  checks.findSome? (stakingCheck s frm to)
+
+/-- `Validate` of one registered handler (`none` = passes) -/
+def handlerValidate (c : Cfg) (s : State) (frm to : Addr) (ctor : String) : Option MErr :=
+  let t := handlerType ctor
+  if bodyNil (t ++ ".Validate") then none
+  else if t == "DistrStakingMigrate" then stakingValidateP Gen.C14.stakingValidateProgram s frm to
+  else if t == "GovMigrate" then (if govRefuses c s frm to then some .gov else none)
+  else none
+
+/-- `Execute` of one registered handler -/
+def handlerExecute (c : Cfg) (frm to : Addr) (s : State) (ctor : String) : Except MErr State :=
+  let t := handlerType ctor
+  if bodyNil (t ++ ".Execute") then .ok s
+  else if t == "BankMigrate" then (if bankBlocked c s frm then .error .exec else .ok (bankExecute c s frm to))
+  else if t == "DistrStakingMigrate" then .ok (stakingExecute c s frm to)
+  else .ok s
+
+/-- `for _, m := range k.GetMigrateI() { if err = m.Execute(…); err != nil { return nil, err } }` -/
+def execAll (c : Cfg) (frm to : Addr) : State → List String → Except MErr State
+  | s, [] => .ok s
+  | s, h :: hs =>
+    match handlerExecute c frm to s h with
+    | .ok s' => execAll c frm to s' hs
+    | .error e => .error e
+
+/-- one recognised statement of `MigrateAccount` -/
+def handlerStmt (c : Cfg) (hs : List String) (frm to : Addr) (s : State) (stmt : String) : Except MErr State :=
+  if stmt == "check-record-from" then (if recGuard c.recKeyFrom s frm then .error .migrated else .ok s)
+  else if stmt == "check-record-to" then (if recGuard c.recKeyTo s to then .error .migrated else .ok s)
+  else if stmt == "check-from-account" then (if !(s.hasKey.contains frm) then .error .account else .ok s)
+  else if stmt == "validate-all" then
+    (match hs.findSome? (handlerValidate c s frm to) with
+     | some e => .error e
+     | none => .ok s)
+  else if stmt == "execute-all" then execAll c frm to s hs
+  else if stmt == "set-record" then .ok (setRecord c s frm to)
+  else .ok s
+
+def runStmts (c : Cfg) (hs : List String) (frm to : Addr) : State → List String → Except MErr State
+  | s, [] => .ok s
+  | s, st :: rest =>
+    match handlerStmt c hs frm to s st with
+    | .ok s' => runStmts c hs frm to s' rest
+    | .error e => .error e
+
+/-- `ValidateBasic` (same account, signature) then the statements of `MigrateAccount` in source order -/
+def migrateProg (c : Cfg) (stmts hs : List String) (s : State) (frm to : Addr) (sigOk : Bool) : Except MErr State :=
+  if frm == to then .error .same else
+  if c.sigRequired && !sigOk then .error .sig else
+  runStmts c hs frm to s stmts
+
 /-! ### signature (opaque hash / recover) -/
 /-- bytes signed, in the order the code hashes them (`Gen.C14.signedFields`) -/
 def signedBytes (fields : List String) (pfx : List Nat) (enc : Addr → List Nat) (frm to : Addr) : List Nat :=
@@ -581,6 +657,13 @@ def migrateMsg {H S : Type} (hash : List Nat → H) (recover : H → S → Optio
     (c : Cfg) (s : State) (frm : Addr) (w : Spelling) (sig : S) : Except MErr State :=
   match parseAt c.toParseVB w, parseAt c.toParseSrv w with
   | some tv, some ts => migrate c s frm ts (sigAccepted hash recover pfx enc frm tv sig)
+  | _, _ => .error .toAddr
+
+/-- the message as submitted, with the message server run as the regenerated program -/
+def migrateMsgP {H S : Type} (hash : List Nat → H) (recover : H → S → Option Addr) (pfx : List Nat) (enc : Addr → List Nat)
+    (c : Cfg) (stmts hs : List String) (s : State) (frm : Addr) (w : Spelling) (sig : S) : Except MErr State :=
+  match parseAt c.toParseVB w, parseAt c.toParseSrv w with
+  | some tv, some ts => migrateProg c stmts hs s frm ts (sigAccepted hash recover pfx enc frm tv sig)
   | _, _ => .error .toAddr
 
 /-! ## operations -/
@@ -633,6 +716,14 @@ def step (c : Cfg) (s : State) : Op → State × String
     match migrate c s frm to sigOk with
     | .ok s' => (s', "ok")
     | .error e => (s, errName e)
+
+/-- `step` with the message server run as the regenerated program (what the driver executes) -/
+def stepP (c : Cfg) (stmts hs : List String) (s : State) : Op → State × String
+  | .migrate frm to sigOk =>
+    match migrateProg c stmts hs s frm to sigOk with
+    | .ok s' => (s', "ok")
+    | .error e => (s, errName e)
+  | op => step c s op
 
 def run (c : Cfg) (s : State) (ops : List Op) : State := ops.foldl (fun s o => (step c s o).1) s
 
